@@ -39,6 +39,7 @@ class TLCResult:
         self.wall = 0.0
         self.trace = []            # counterexample states (text) if any
         self.coverage_zero = []
+        self.truncated = False
 
 
 def _unquote_tla(line):
@@ -54,7 +55,7 @@ MAX_VECTOR_BYTES = 2 << 30   # one generator run may not write more than 2 GiB o
 
 def tlc(module, cfg, *, workers=None, sink=None, simulate=None, depth=None, seed=None,
         timeout=1800, dfs=False, extra=(), files=(), xss=None, heap=None, keep=False, tag=None,
-        coverage=False, expect_violation=False, defines=None, postcond_ok=True, young=None):
+        coverage=False, expect_violation=False, defines=None, postcond_ok=True, young=None, max_vectors=None):
     """Run TLC on spec/<module>.tla with spec/<cfg> in a scratch copy.
     Lines printed by the spec through PrintT(ToJson(..)) (TLA+ string values) are
     unquoted and written to `sink` (an open text file) and counted."""
@@ -120,6 +121,10 @@ def tlc(module, cfg, *, workers=None, sink=None, simulate=None, depth=None, seed
                             sink.write(s)
                             sink.write("\n")
                             outbytes += len(s) + 1
+                            if max_vectors and (res.vectors >= max_vectors or outbytes > (1 << 30)):
+                                res.truncated = True      # a budgeted generator: the first max_vectors of the breadth-first order
+                                p.kill()
+                                break
                             if outbytes > MAX_VECTOR_BYTES:
                                 toobig = True
                                 p.kill()
@@ -147,6 +152,8 @@ def tlc(module, cfg, *, workers=None, sink=None, simulate=None, depth=None, seed
             signal.alarm(0)
             signal.signal(signal.SIGALRM, old)
         res.rc = p.wait()
+        if getattr(res, "truncated", False):
+            res.rc = 0
         if killed[0]:
             raise Infra("TLC timeout after %ss: %s %s" % (timeout, module, cfg))
         if toobig:
